@@ -76,12 +76,16 @@ PROPS["C01"] = {
         {"dir": "types",
          "quick": ["VP_C01_VoteSet_n2_k3", "VP_C01_VoteSet_n3_k2", "VP_C01_VoteSet_n2_k2_pv", "VP_C01_VoteSet_n2_k2_full"],
          "thorough": ["VP_C01_VoteSet_n3_k3", "VP_C01_VoteSet_n3_k3_pv", "VP_C01_VoteSet_n2_k4", "VP_C01_VoteSet_n3_k3_full"]},
+        {"dir": "consensus",
+         "quick": ["VP_C02_Step_R1_vote_lockfocus", "VP_C02_Step_R1_part_lockfocus"],
+         "thorough": ["VP_C02_Step_R1_part", "VP_C02_Step_R1_vote_locked"]},
     ],
     "bounds": {
+        "commit rule and local voting rules (H2/H3)": "the inductive step of the real consensus.State (see C02): at every BlockStore.SaveBlock the saved block is the one with +2/3 precommits in the commit round, passed validation, its parts match the commit header, the seen commit is for it; ApplyBlock only after SaveBlock; nothing saved without deciding; lock rules L1-L5",
         "vote set (H1)": "n = 2..3 validators, symbolic powers (total <= 2^16; one configuration up to MaxTotalVotingPower), histories of k = 2..3 (thorough 4) operations from: a well-formed genuinely signed vote of validator i for block A/B/nil, a junk-signature vote, a vote malformed in exactly one respect (height, round, type, index out of range / negative / other validator's index, empty address) but genuinely signed as such, SetPeerMaj23 by one of two peers for A/B/nil; quorum facts asserted after every operation; MakeCommit checked with the real VerifyCommit",
     },
-    "stubs": ["ed25519 = ideal signature oracle (natively real)"],
-    "outside": ["see DESIGN.md C01: H2/H3 are the consensus step harness of C02; H4 (composition lemma) is a bounded SMT lemma"],
+    "stubs": ["ed25519 = ideal signature oracle (natively real)", "H2/H3: the stubs of the consensus step harness (see C02)"],
+    "outside": ["the composition of the per-node rules into agreement between nodes (H4) is the standard quorum-intersection argument and is not decided here; its conclusions are assumed as global facts on the vote table", "H2/H3 slices as listed for C02"],
     "engine_flags": ["-qtimeout", "2500"],
     "timeout_quick": 500, "timeout_thorough": 3000,
 }
@@ -303,4 +307,44 @@ PROPS["C05"] = {
     "stubs": ["pubsub publishing stubbed", "nil WAL (the #ENDHEIGHT marker and WAL catch-up are C15's subject)", "crash = abandon execution at the crash point, keep database contents and the application's committed height/hash"],
     "outside": ["WAL catch-up replay after the handshake", "applications that are ahead of the block store by more than the in-flight block", "mempool v1", "socket/grpc ABCI clients (modelled by the queued connection)", "chains longer than 3 blocks, more than 2 crashes"],
     "timeout_quick": 400, "timeout_thorough": 1800,
+}
+
+_STEP_STUBS = ["vote sets of the height summarised by a symbolic table (majority / +2/3-any / all per round and type) constrained by the VoteSet contract that C01's vote-set check proves on the real types.VoteSet; AddVote answers are arbitrary within that contract",
+               "global facts assumed on the table (consequences of <1/3 faulty power: one precommit-majority block per height, no polka for another block in or after a round with a precommit majority, a majority block was validated by a correct validator)",
+               "BlockExecutor.ValidateBlock/CreateProposalBlock/ApplyBlock, pubsub publishing, prevote-delay metrics and RoundStepType.String replaced by summaries (engine-level interception: counterexamples are replayed in the interpreter)",
+               "signer = recording FilePV-like key; proposal signatures ideal"]
+_STEP_OUT = ["the induction is over one height; the next height starts from NewState-like values (base case checked)", "rounds beyond R+1", "more than three candidate blocks; multi-part blocks", "a node that is not a validator", "reactor gossip"]
+
+PROPS["C02"] = {
+    "files": ["consensus/state.go", "consensus/types/height_vote_set.go", "types/vote_set.go"],
+    "groups": [
+        {"dir": "consensus",
+         "quick": ["VP_C02_Base", "VP_C02_Step_R1_vote_lockfocus", "VP_C02_Step_R2_vote_lockfocus_top", "VP_C02_Step_R1_timeout_lockfocus", "VP_C02_Step_R1_part_lockfocus", "VP_C02_Step_R1_txs"],
+         "thorough": ["VP_C02_Step_R1_vote_locked", "VP_C02_Step_R1_timeout", "VP_C02_Step_R1_proposal", "VP_C02_Step_R1_part"]},
+    ],
+    "bounds": {
+        "inductive step of the real consensus.State": "one arbitrary event (vote of any type/round/block; timeout; proposal; block part; txs-available) applied by the real handleMsg/handleTimeout/handleTxsAvailable to a state whose Round (0..R), Step (all 8), LockedRound, ValidRound, CommitRound, TriggeredTimeoutPrecommit, vote-set summary for rounds 0..R+1 and signing ghost are symbolic and constrained only by the invariant INV; INV is asserted again afterwards and on the NewState state (base), so every reachable state of a height is covered for rounds <= R; R=1 (thorough: also R=2 for votes); obligations L1-L5 asserted inside the signer at every signature",
+        "slices": "quick entries cover the pre-state slice 'locked on A, valid block A, proposal block none/A, no proposal message, votes of the current height for nil/A/B' for votes (R=1, and R=2 with the node in round 2), timeouts and parts, and every shape for txs-available; thorough entries cover every shape for timeouts, proposals, parts and the slice 'locked on A, valid A/B, proposal block none/A/B' for votes",
+    },
+    "stubs": _STEP_STUBS,
+    "outside": _STEP_OUT + ["vote events from the unlocked slice (run as VP_C02_Step_R1_vote_unlocked / VP_C02_Step_R1_vote, more than 250k paths: not completed within 30 minutes, not registered)"],
+    "timeout_quick": 600, "timeout_thorough": 3600,
+}
+
+PROPS["C03"] = {
+    "files": ["consensus/state.go", "config/config.go", "types/validator_set.go"],
+    "groups": [
+        {"dir": "consensus",
+         "quick": ["VP_C03_TimeoutsGrow", "VP_C03_RotationFair", "VP_C03_CommitWaitsForBlock", "VP_C02_Step_R2_vote_lockfocus_top"],
+         "thorough": ["VP_C02_Step_R1_vote_locked", "VP_C02_Step_R1_timeout", "VP_C02_Step_R1_proposal"]},
+    ],
+    "bounds": {
+        "T1 timeouts grow": "config.ConsensusConfig.Propose/Prevote/Precommit for every round in [0, 65536), default configuration and configurations with arbitrary deltas in [1 ms, 10 s]",
+        "T2 rotation": "3 validators with powers in 1..3 each, starting 0..3 rounds into the rotation: over (total power) rounds each proposes exactly (power) times",
+        "T3/T4 round skipping, re-proposal, unlock": "the step harness of C02 (lock-focus slice, R=2, node in round 2): T4a asserted at every SignProposal, T4b (a later polka for something else releases the lock) after every vote",
+        "T5 commit waits for the block": "real consensus.State with real vote sets, 4 validators: decision seen without the block, then one of {nothing, round-1 prevotes for the block, round-1 prevotes for nil, round-1 precommits for nil}, then all parts (round 0 and 1), all votes again and all scheduled timeouts, twice",
+    },
+    "stubs": _STEP_STUBS,
+    "outside": _STEP_OUT + ["end-to-end termination (an unbounded multi-node schedule suffix) is not decided: only the anchored mechanisms are, as bounded lemmas"],
+    "timeout_quick": 600, "timeout_thorough": 3600,
 }
